@@ -23,6 +23,13 @@ type retRec struct {
 	vals []Value
 }
 
+// loopCtl collects the path conditions under which control left the current iteration (cont) or the whole
+// statement (brk) through continue / break; those paths rejoin at the end of the iteration / statement.
+type loopCtl struct {
+	loop      bool // for/range (false: switch, which only takes break)
+	brk, cont Node
+}
+
 type frame struct {
 	pkg     *packages.Package
 	env     map[types.Object]*Cell
@@ -40,6 +47,8 @@ type Interp struct {
 	live       Node
 	logs       []map[*Cell]Value // write logs of the enclosing symbolic branches
 	frames     []*frame
+	ctl        []*loopCtl // enclosing breakable statements of all activations (innermost last)
+	ctlBase    int        // first entry of ctl that belongs to the current function activation
 	depth      int
 	Steps      int
 	Called     map[string]bool // functions interpreted (for evidence)
@@ -90,6 +99,13 @@ func (in *Interp) store(c *Cell, v Value) {
 	if n := len(in.logs); n > 0 {
 		if _, seen := in.logs[n-1][c]; !seen {
 			in.logs[n-1][c] = c.V
+		}
+	}
+	// paths that left an enclosing loop iteration or switch through break/continue rejoin later and must still see
+	// the old content: the write only takes effect on the other paths
+	if len(in.ctl) > 0 && c.V != nil {
+		if esc := in.escaped(); esc != False {
+			v = in.ite(esc, c.V, v)
 		}
 	}
 	c.V = v
@@ -205,11 +221,14 @@ func (in *Interp) callFunc(fn *types.Func, recvCell *Cell, recvVal Value, args [
 		}
 	}
 	savedLive := in.live
+	savedBase := in.ctlBase
+	in.ctlBase = len(in.ctl)
 	in.frames = append(in.frames, f)
 	in.depth++
 	in.block(fi.decl.Body.List)
 	in.depth--
 	in.frames = in.frames[:len(in.frames)-1]
+	in.ctlBase = savedBase
 	endLive := in.live
 	in.live = savedLive
 	in.D.Cond = savedLive
@@ -320,10 +339,12 @@ func (in *Interp) branch(c Node, thenF, elseF func()) {
 		in.live = l
 		in.D.Cond = l
 		nret := len(fr.rets)
+		escBefore := in.escaped()
 		if f != nil {
 			f()
 		}
-		end := in.live
+		// paths that left this arm through break/continue still carry its writes
+		end := in.D.M.Or(in.live, in.D.M.And(in.escaped(), in.D.M.Not(escBefore)))
 		in.logs = in.logs[:len(in.logs)-1]
 		vals := map[*Cell]Value{}
 		for cell, old := range log {
@@ -374,8 +395,17 @@ func (in *Interp) branch(c Node, thenF, elseF func()) {
 		}
 		in.store(cell, nv)
 	}
-	in.live = in.D.M.Or(endT, endE)
+	in.live = in.D.M.And(in.D.M.Or(endT, endE), in.D.M.Not(in.escaped()))
 	in.D.Cond = in.live
+}
+
+// escaped: the paths that have left the enclosing breakable statements of this activation through break/continue.
+func (in *Interp) escaped() Node {
+	n := False
+	for _, c := range in.ctl {
+		n = in.D.M.Or(n, in.D.M.Or(c.brk, c.cont))
+	}
+	return n
 }
 
 func (in *Interp) stmt(s ast.Stmt) {
@@ -454,12 +484,14 @@ func (in *Interp) stmt(s ast.Stmt) {
 		if x.Init != nil {
 			in.stmt(x.Init)
 		}
+		lc := &loopCtl{loop: true, brk: False, cont: False}
+		in.ctl = append(in.ctl, lc)
 		for iter := 0; ; iter++ {
 			if iter > 4096 {
 				in.fail(x, "loop does not terminate within 4096 unrolled iterations")
 			}
 			if in.live == False {
-				return
+				break
 			}
 			if x.Cond != nil {
 				c := in.cond(x.Cond)
@@ -471,13 +503,17 @@ func (in *Interp) stmt(s ast.Stmt) {
 					in.fail(x, "loop condition is symbolic (trip count not constant)")
 				}
 			}
-			if brk := in.loopBody(x.Body.List); brk {
-				break
-			}
+			lc.cont = False
+			in.block(x.Body.List)
+			in.live = in.D.M.Or(in.live, lc.cont) // continue rejoins before the post statement
+			lc.cont = False
 			if x.Post != nil && in.live != False {
 				in.stmt(x.Post)
 			}
 		}
+		in.ctl = in.ctl[:len(in.ctl)-1]
+		in.live = in.D.M.Or(in.live, lc.brk)
+		in.D.Cond = in.live
 	case *ast.RangeStmt:
 		coll := in.expr(x.X)
 		var n int
@@ -502,9 +538,11 @@ func (in *Interp) stmt(s ast.Stmt) {
 		default:
 			in.fail(x, "range over %T", coll)
 		}
+		lc := &loopCtl{loop: true, brk: False, cont: False}
+		in.ctl = append(in.ctl, lc)
 		for i := 0; i < n; i++ {
 			if in.live == False {
-				return
+				break
 			}
 			bind := func(e ast.Expr, v Value) {
 				if e == nil {
@@ -527,10 +565,14 @@ func (in *Interp) stmt(s ast.Stmt) {
 			if x.Value != nil {
 				bind(x.Value, at(i))
 			}
-			if brk := in.loopBody(x.Body.List); brk {
-				break
-			}
+			lc.cont = False
+			in.block(x.Body.List)
+			in.live = in.D.M.Or(in.live, lc.cont)
+			lc.cont = False
 		}
+		in.ctl = in.ctl[:len(in.ctl)-1]
+		in.live = in.D.M.Or(in.live, lc.brk)
+		in.D.Cond = in.live
 	case *ast.SwitchStmt:
 		if x.Init != nil {
 			in.stmt(x.Init)
@@ -570,11 +612,47 @@ func (in *Interp) stmt(s ast.Stmt) {
 			}
 			in.branch(cnd, func() { in.switchBody(c.Body) }, func() { run(i + 1) })
 		}
+		lc := &loopCtl{brk: False, cont: False}
+		in.ctl = append(in.ctl, lc)
 		run(0)
+		in.ctl = in.ctl[:len(in.ctl)-1]
+		in.live = in.D.M.Or(in.live, lc.brk)
+		in.D.Cond = in.live
 	case *ast.TypeSwitchStmt:
+		lc := &loopCtl{brk: False, cont: False}
+		in.ctl = append(in.ctl, lc)
 		in.typeSwitch(x)
+		in.ctl = in.ctl[:len(in.ctl)-1]
+		in.live = in.D.M.Or(in.live, lc.brk)
+		in.D.Cond = in.live
 	case *ast.BranchStmt:
-		in.fail(x, "%s outside a supported position", x.Tok)
+		if x.Label != nil {
+			in.fail(x, "labelled %s", x.Tok)
+		}
+		switch x.Tok {
+		case token.BREAK:
+			if len(in.ctl) <= in.ctlBase {
+				in.fail(x, "break outside a loop or switch")
+			}
+			lc := in.ctl[len(in.ctl)-1]
+			lc.brk = in.D.M.Or(lc.brk, in.live)
+			in.live = False
+		case token.CONTINUE:
+			var lc *loopCtl
+			for i := len(in.ctl) - 1; i >= in.ctlBase; i-- {
+				if in.ctl[i].loop {
+					lc = in.ctl[i]
+					break
+				}
+			}
+			if lc == nil {
+				in.fail(x, "continue outside a loop")
+			}
+			lc.cont = in.D.M.Or(lc.cont, in.live)
+			in.live = False
+		default:
+			in.fail(x, "%s outside the supported subset", x.Tok)
+		}
 	case *ast.DeferStmt:
 		// deferred unlocks and the like have no effect on the abstract values tracked here
 		if call, ok := x.Call.Fun.(*ast.SelectorExpr); ok && strings.HasSuffix(call.Sel.Name, "nlock") {
@@ -597,97 +675,6 @@ func (in *Interp) switchBody(list []ast.Stmt) {
 		}
 		in.stmt(s)
 	}
-}
-
-// loopBody runs one iteration; supports unconditional trailing break/continue and
-// `if const { break|continue }`. Returns true on break.
-func (in *Interp) loopBody(list []ast.Stmt) (brk bool) {
-	for _, s := range list {
-		if in.live == False {
-			return false
-		}
-		switch b := s.(type) {
-		case *ast.BranchStmt:
-			if b.Tok == token.BREAK {
-				return true
-			}
-			if b.Tok == token.CONTINUE {
-				return false
-			}
-		case *ast.IfStmt:
-			// if c { … break/continue } with c decidable
-			if hasLoopBranch(b) {
-				if b.Init != nil {
-					in.stmt(b.Init)
-				}
-				c := in.D.M.And(in.cond(b.Cond), in.live)
-				switch {
-				case c == in.live:
-					r, cont := in.loopBodyCtl(b.Body.List)
-					if r {
-						return true
-					}
-					if cont {
-						return false
-					}
-					continue
-				case c == False:
-					if b.Else != nil {
-						if eb, ok := b.Else.(*ast.BlockStmt); ok {
-							r, cont := in.loopBodyCtl(eb.List)
-							if r {
-								return true
-							}
-							if cont {
-								return false
-							}
-						} else {
-							in.stmt(b.Else)
-						}
-					}
-					continue
-				default:
-					in.fail(b, "break/continue under a symbolic condition")
-				}
-			}
-		}
-		in.stmt(s)
-	}
-	return false
-}
-
-func (in *Interp) loopBodyCtl(list []ast.Stmt) (brk, cont bool) {
-	for _, s := range list {
-		if in.live == False {
-			return false, false
-		}
-		if b, ok := s.(*ast.BranchStmt); ok {
-			if b.Tok == token.BREAK {
-				return true, false
-			}
-			if b.Tok == token.CONTINUE {
-				return false, true
-			}
-		}
-		in.stmt(s)
-	}
-	return false, false
-}
-
-func hasLoopBranch(s *ast.IfStmt) bool {
-	found := false
-	ast.Inspect(s, func(n ast.Node) bool {
-		switch x := n.(type) {
-		case *ast.ForStmt, *ast.RangeStmt, *ast.SwitchStmt, *ast.FuncLit:
-			return false
-		case *ast.BranchStmt:
-			if x.Tok == token.BREAK || x.Tok == token.CONTINUE {
-				found = true
-			}
-		}
-		return true
-	})
-	return found
 }
 
 func (in *Interp) typeSwitch(x *ast.TypeSwitchStmt) {
@@ -934,7 +921,7 @@ func (in *Interp) lvalue(e ast.Expr) *Cell {
 		if !ok {
 			in.fail(x, "index is not an integer")
 		}
-		k, isConst := in.D.ConstVal(idx)
+		k, isConst := in.constLive(idx)
 		if !isConst {
 			in.fail(x, "store/address through a symbolic index")
 		}
@@ -1118,4 +1105,72 @@ func (in *Interp) NamedType(rel, name string) types.Type {
 // crash reports a definite runtime panic of the interpreted code under the current live condition.
 func (in *Interp) crash(n ast.Node, f string, a ...interface{}) {
 	panic(Panic{Why: fmt.Sprintf("%s: %s", in.pos(n), fmt.Sprintf(f, a...)), Cond: in.live})
+}
+
+// callFuncLit interprets an immediately invoked function literal `func(params) results { … }(args)`: a frame that
+// shares the cells of the enclosing activation (closures capture by reference) plus its own parameters and results.
+func (in *Interp) callFuncLit(lit *ast.FuncLit, args []Value) []Value {
+	info := in.info()
+	sig, ok := info.TypeOf(lit).(*types.Signature)
+	if !ok {
+		unsupported("function literal without a signature")
+	}
+	if in.depth > 24 {
+		unsupported("call depth")
+	}
+	outer := in.fr()
+	f := &frame{pkg: outer.pkg, env: map[types.Object]*Cell{}, results: sig.Results(), fn: outer.fn + ".func"}
+	for o, c := range outer.env {
+		f.env[o] = c
+	}
+	i := 0
+	if lit.Type.Params != nil {
+		for _, pf := range lit.Type.Params.List {
+			if len(pf.Names) == 0 {
+				i++
+				continue
+			}
+			for _, n := range pf.Names {
+				if i >= len(args) {
+					unsupported("arity mismatch calling a function literal")
+				}
+				if n.Name != "_" {
+					f.env[info.Defs[n]] = &Cell{Copy(args[i])}
+				}
+				i++
+			}
+		}
+	}
+	if lit.Type.Results != nil {
+		for _, rf := range lit.Type.Results.List {
+			for _, n := range rf.Names {
+				c := &Cell{in.Zero(info.Defs[n].Type())}
+				f.env[info.Defs[n]] = c
+				f.named = append(f.named, c)
+			}
+		}
+	}
+	savedLive, savedBase := in.live, in.ctlBase
+	in.ctlBase = len(in.ctl)
+	in.frames = append(in.frames, f)
+	in.depth++
+	in.block(lit.Body.List)
+	in.depth--
+	in.frames = in.frames[:len(in.frames)-1]
+	in.ctlBase = savedBase
+	endLive := in.live
+	in.live = savedLive
+	in.D.Cond = savedLive
+	if endLive != False && sig.Results().Len() > 0 && len(f.named) == 0 {
+		unsupported("function literal can fall off its end")
+	}
+	if endLive != False && len(f.named) > 0 {
+		// falling off the end of a function with named results returns them
+		var vals []Value
+		for _, c := range f.named {
+			vals = append(vals, c.V)
+		}
+		f.rets = append(f.rets, retRec{endLive, vals})
+	}
+	return in.mergeReturns(f, sig)
 }
